@@ -38,6 +38,7 @@ type Op struct {
 	Op   string `json:"op"`
 	Cert bool   `json:"cert"`
 	W    string `json:"w"`
+	Bls  bool   `json:"bls"`
 	St   uint32 `json:"st"`
 	Best string `json:"best"`
 	S    int    `json:"s"`
@@ -86,9 +87,10 @@ type world struct {
 	blocks map[string]*types.Block
 	names  map[common.Hash]string
 	msgs   map[string]*ucon.BlockHashWithVotes
+	bls    *blsExtra // nil: plain world (no BLS, stubbed credentials)
 }
 
-func newWorld(table string, cert bool) (*world, error) {
+func newWorld(table string, cert bool, bls bool) (*world, error) {
 	ws, ok := tables[table]
 	if !ok {
 		return nil, fmt.Errorf("unknown weight table %q", table)
@@ -108,10 +110,16 @@ func newWorld(table string, cert bool) (*world, error) {
 		w.blocks[n] = b
 		w.names[b.Hash()] = n
 	}
+	w.sub = w.mux.Subscribe(ucon.SendMessageEvent{}, ucon.CommitEvent{}, ucon.RoundIndexChangeEvent{}, ucon.UpdateExistedHeaderEvent{})
+	if bls {
+		if err := w.initBLS(table); err != nil {
+			return nil, err
+		}
+		return w, nil
+	}
 	st, _ := fixture.NewMemState()
 	p := &pm{st: st}
 	th := uint64(w.total)
-	w.sub = w.mux.Subscribe(ucon.SendMessageEvent{}, ucon.CommitEvent{}, ucon.RoundIndexChangeEvent{}, ucon.UpdateExistedHeaderEvent{})
 	me := w.keys[0]
 	w.v = ucon.NewVoter(youdb.NewMemDatabase(), me.Priv, me.BlsSk, w.mux,
 		func(pubKey *ecdsa.PublicKey, data *ucon.SortitionData, lb params.LookBackType) error {
@@ -146,9 +154,16 @@ func newWorld(table string, cert bool) (*world, error) {
 
 func (w *world) ctx(step uint32) {
 	w.v.VerifUpdateContext(ucon.ContextChangeEvent{Round: big.NewInt(w.round), RoundIndex: w.cur, Step: step, Certificate: w.cert})
+	if w.bls != nil && step == ucon.UConStepStart {
+		// the peer follows the node's (round, index) and never votes itself (it only sees step 0)
+		w.bls.peer.VerifUpdateContext(ucon.ContextChangeEvent{Round: big.NewInt(w.round), RoundIndex: w.cur, Step: step, Certificate: w.cert})
+	}
 }
 
 func (w *world) voteMsg(s int, k, b string, idx uint32, cred string) *ucon.BlockHashWithVotes {
+	if w.bls != nil {
+		return w.voteMsgBLS(s, k, b, idx, cred)
+	}
 	key := fmt.Sprint(s, k, b, idx, cred)
 	if m, ok := w.msgs[key]; ok {
 		return m
@@ -206,10 +221,26 @@ func (w *world) drain(base int, ev map[string]interface{}) error {
 						k = n
 					}
 				}
-				sent = append(sent, map[string]interface{}{"k": k, "r": m.Round.Int64(), "i": m.RoundIndex, "b": w.names[m.BlockHash], "w": m.Vote.Votes})
+				rec := map[string]interface{}{"k": k, "r": m.Round.Int64(), "i": m.RoundIndex, "b": w.names[m.BlockHash], "w": m.Vote.Votes}
+				if w.bls != nil {
+					ok, why := w.peerAccepts(&m, kinds[k])
+					rec["peer"] = ok
+					if !ok {
+						rec["peererr"] = why
+					}
+				}
+				sent = append(sent, rec)
 			case ucon.CommitEvent:
-				commits = append(commits, map[string]interface{}{"r": d.Round.Int64(), "i": d.RoundIndex, "b": w.names[d.Block.Hash()],
-					"pre": w.senders(d.ChamberPrecommits), "cert": w.senders(d.ChamberCerts)})
+				c := map[string]interface{}{"r": d.Round.Int64(), "i": d.RoundIndex, "b": w.names[d.Block.Hash()],
+					"pre": w.senders(d.ChamberPrecommits), "cert": w.senders(d.ChamberCerts)}
+				if w.bls != nil {
+					sealed, ok, why := w.verifyCommit(d)
+					c["sealed"], c["verifies"] = sealed, ok
+					if !ok {
+						c["err"] = why
+					}
+				}
+				commits = append(commits, c)
 			}
 		default:
 			if runtime.NumGoroutine() <= base {
@@ -298,11 +329,11 @@ func run(env *drive.Env) error {
 		if table == "" {
 			table = "g"
 		}
-		w, err := newWorld(table, beh[0].Cert)
+		w, err := newWorld(table, beh[0].Cert, beh[0].Bls)
 		if err != nil {
 			return err
 		}
-		first := map[string]interface{}{"ev": "Cfg", "cert": beh[0].Cert, "T": w.total, "w": w.w, "round": w.round}
+		first := map[string]interface{}{"ev": "Cfg", "cert": beh[0].Cert, "T": w.total, "w": w.w, "round": w.round, "bls": beh[0].Bls}
 		base := runtime.NumGoroutine()
 		w.ctx(ucon.UConStepStart)
 		if err := w.drain(base, first); err != nil {
